@@ -316,7 +316,17 @@ def check(prop, tier, verif_seed, workers=16, budget=None, wall_cap=None, write_
         if len(reported) < int(os.environ.get("HGSIM_MAX_REPORT", "6")):
             small, tries = minimise(scen, g["case"], sig, budget_s=scen.minimise_s)
             res = scen.execute(small)
-            v = res["violation"]
+            v = res.get("violation")
+            if v is None or v["signature"] != sig:
+                # the minimised case does not reproduce when executed once more in this process: the failure depends on
+                # state the library keeps across operations (a process-global cache, a mutated default argument ...).
+                # Report the original case as recorded by the worker.
+                small, tries = g["case"], -1
+                res = scen.execute(small)
+                v = res.get("violation")
+                if v is None or v["signature"] != sig:
+                    v = g["violation"]
+                    res = {"digest": None, "steps": g["size"]}
             path = write_replay(prop, g["case"]["seed"], small, v, res.get("digest"), g["size"])
             try:
                 rok = replay_in_fresh_interpreter(path)
